@@ -727,6 +727,13 @@ def _workload(tier, rng, shard, nshards):
         for _q in range(3):
             call(t.find, rng.choice(queries), rng.random() < 0.4, rng.random() < 0.3)
         _ = t.timestamps
+        if ents and rng.random() < 0.08:
+            # two boundary times a hair apart (closer than the tolerance entry equality uses): two timestamps, not one
+            last = ents[-1]
+            x_ = last[-2] * (1 + 5e-10) if last[-2] > 0.5 else last[-2] + 5e-10
+            near = make_tier(kind, "q", list(ents) + ([(x_, x_ + 0.25, "nr")] if kind == "I" else [(x_, "nr")]), lo, max(hi, x_ + 0.5))
+            REC.cls("C15:timestamps:two-times-a-hair-apart")
+            _ = near.timestamps
         if kind == "I":
             call(t.getNonEntries)
             if ents and rng.random() < 0.1:
